@@ -324,6 +324,41 @@ def check_histories(ctx):
                             witness=None if refused and before == after else
                             dict(refused=refused,
                                  changed=sorted(set(before) ^ set(after)))))
+        # the same directory spelled differently ('~', relative, trailing
+        # components) is the same dataset: creation is refused as well
+        import os as _os
+        old_home, old_cwd = _os.environ.get("HOME"), _os.getcwd()
+        bad = None
+        try:
+            _os.environ["HOME"] = str(tmp)
+            _os.chdir(tmp)
+            for spelled in ("~/exists", "exists", "./exists", "exists/../exists",
+                            str(root) + "/"):
+                ok = False
+                try:
+                    Dataset.create(Path(spelled), Metadata(description="x"),
+                                   DatasetStructure())
+                except DatasetExistsError:
+                    ok = True
+                except Exception:  # noqa: BLE001
+                    ok = False
+                now = {str(p.relative_to(root)): p.read_bytes()
+                       for p in root.rglob("*") if p.is_file()}
+                if not ok or now != before:
+                    bad = dict(spelled=spelled, refused=ok,
+                               changed=sorted(k for k in set(before) | set(now)
+                                              if before.get(k) != now.get(k))[:5])
+                    break
+        finally:
+            _os.chdir(old_cwd)
+            if old_home is None:
+                _os.environ.pop("HOME", None)
+            else:
+                _os.environ["HOME"] = old_home
+        out.append(C.result("Dataset.create is refused for every spelling of "
+                            "an existing dataset's directory ('~', relative, "
+                            "'..')", bad is None, function="Dataset.create",
+                            evaluations=5, witness=bad))
     return out
 
 
